@@ -399,6 +399,89 @@ fn build_entry(way: &str, rels: &[RelM]) -> Option<Entry> {
 struct Handles {
     entries: Vec<(usize, Entry)>,          // (item id, handle)
     rels: Vec<(usize, usize, Relation)>,   // (item id, relation id, handle)
+    others: Vec<(Relations, String)>,      // other fields a live operand was taken from, and their text then
+}
+
+/// an operand of an entry-level edit of the field
+enum Opnd<T> {
+    Skip,
+    Panic,
+    Ok(Vec<RelM>, T),
+}
+
+/// ways `p` / `c` / `b`: built from the text; `l`: the LIVE entry `t` of the field being edited;
+/// `o`: the live first entry of another field, read from the text `t` and kept (it must not change)
+fn entry_operand(root: &Relations, model: &mut Model, handles: &mut Handles, way: &str, t: &str) -> Opnd<Entry> {
+    match way {
+        "l" => {
+            let k = t.parse::<usize>().unwrap_or(usize::MAX);
+            if model.entry_pos(k).is_none() {
+                return Opnd::Skip;
+            }
+            let rels: Vec<RelM> = model.alts(k).map(|a| a.iter().map(|(_, r)| r.clone()).collect()).unwrap_or_default();
+            match root.get_entry(k) {
+                Some(e) => Opnd::Ok(rels, e),
+                None => Opnd::Panic,
+            }
+        }
+        "o" => {
+            let text = match ds(t) {
+                Some(x) => x,
+                None => return Opnd::Skip,
+            };
+            let other = match strict_parse(&text, false) {
+                Some(o) => o,
+                None => return Opnd::Skip,
+            };
+            let rels = match read_field(&other).and_then(|(d, _)| d.into_iter().find_map(|x| match x { Den::Alts(a) => Some(a), _ => None })) {
+                Some(r) => r,
+                None => return Opnd::Skip,
+            };
+            let e = match other.get_entry(0) {
+                Some(e) => e,
+                None => return Opnd::Skip,
+            };
+            let printed = other.to_string();
+            handles.others.push((other, printed));
+            Opnd::Ok(rels, e)
+        }
+        _ => {
+            let rels = match ds(t).and_then(|t| parse_entry_canon(&t)) {
+                Some(r) => r,
+                None => return Opnd::Skip,
+            };
+            match build_entry(way, &rels) {
+                Some(e) => Opnd::Ok(rels, e),
+                None => Opnd::Panic,
+            }
+        }
+    }
+}
+
+/// a relation operand; way `l`: the live relation `K-J` of the field being edited
+fn rel_operand(root: &Relations, model: &mut Model, way: &str, t: &str) -> Opnd<Relation> {
+    if way == "l" {
+        let kj: Vec<usize> = t.split('-').map(|x| x.parse::<usize>().unwrap_or(usize::MAX)).collect();
+        if kj.len() != 2 || model.entry_pos(kj[0]).is_none() {
+            return Opnd::Skip;
+        }
+        let m = match model.alts(kj[0]).and_then(|a| a.get(kj[1]).map(|(_, r)| r.clone())) {
+            Some(m) => m,
+            None => return Opnd::Skip,
+        };
+        return match root.get_entry(kj[0]).and_then(|e| e.get_relation(kj[1])) {
+            Some(r) => Opnd::Ok(vec![m], r),
+            None => Opnd::Panic,
+        };
+    }
+    let m = match ds(t).and_then(|t| RelM::parse_canon(&t)) {
+        Some(r) => r,
+        None => return Opnd::Skip,
+    };
+    match build_rel(way, &m) {
+        Some(r) => Opnd::Ok(vec![m], r),
+        None => Opnd::Panic,
+    }
 }
 
 enum Step {
@@ -427,7 +510,7 @@ fn run_hist(start: &str, allow: bool, ops: &str) -> Resp {
         model.items.push(Item { id, kind, text: Some(t) });
     }
     // handles taken before the history
-    let mut handles = Handles { entries: vec![], rels: vec![] };
+    let mut handles = Handles { entries: vec![], rels: vec![], others: vec![] };
     {
         let mut k = 0;
         for it in &model.items {
@@ -536,6 +619,14 @@ fn check_step(root: &Relations, text: &str, allow: bool, model: &Model, handles:
             }
         }
     }
+    // 2b. a field a live operand was taken from is left as it was
+    for (o, t) in &handles.others {
+        match guard(|| o.to_string()) {
+            Some(now) if &now == t => {}
+            Some(now) => return Some(format!("the field the operand was taken from changed: {:?}, was {:?}", now, t)),
+            None => return Some("the field the operand was taken from panics when printed".into()),
+        }
+    }
     // 3. separators never duplicated or dangling
     let em = empty_segments(text);
     if em > prev_empty {
@@ -625,16 +716,13 @@ fn apply(root: &mut Relations, model: &mut Model, handles: &mut Handles, f: &[&s
     match f {
         ["ins", i, way, t] => {
             let i = idx(i).unwrap_or(usize::MAX);
-            let rels = match ds(t).and_then(|t| parse_entry_canon(&t)) {
-                Some(r) => r,
-                None => return Step::Skip,
-            };
-            if i > n {
+            let o = entry_operand(root, model, handles, way, t);
+            if matches!(o, Opnd::Skip) || i > n {
                 return Step::Skip;
             }
-            let e = match build_entry(way, &rels) {
-                Some(e) => e,
-                None => return Step::Panic,
+            let (rels, e) = match o {
+                Opnd::Ok(r, e) => (r, e),
+                _ => return Step::Panic,
             };
             root.insert(i, e);
             let item = model.new_entry(rels);
@@ -643,13 +731,10 @@ fn apply(root: &mut Relations, model: &mut Model, handles: &mut Handles, f: &[&s
             Step::Done
         }
         ["push", way, t] => {
-            let rels = match ds(t).and_then(|t| parse_entry_canon(&t)) {
-                Some(r) => r,
-                None => return Step::Skip,
-            };
-            let e = match build_entry(way, &rels) {
-                Some(e) => e,
-                None => return Step::Panic,
+            let (rels, e) = match entry_operand(root, model, handles, way, t) {
+                Opnd::Ok(r, e) => (r, e),
+                Opnd::Skip => return Step::Skip,
+                Opnd::Panic => return Step::Panic,
             };
             root.push(e);
             let item = model.new_entry(rels);
@@ -658,17 +743,14 @@ fn apply(root: &mut Relations, model: &mut Model, handles: &mut Handles, f: &[&s
         }
         ["repl", i, way, t] => {
             let i = idx(i).unwrap_or(usize::MAX);
-            let rels = match ds(t).and_then(|t| parse_entry_canon(&t)) {
-                Some(r) => r,
-                None => return Step::Skip,
+            let o = entry_operand(root, model, handles, way, t);
+            let pos = match (&o, model.entry_pos(i)) {
+                (Opnd::Skip, _) | (_, None) => return Step::Skip,
+                (_, Some(p)) => p,
             };
-            let pos = match model.entry_pos(i) {
-                Some(p) => p,
-                None => return Step::Skip,
-            };
-            let e = match build_entry(way, &rels) {
-                Some(e) => e,
-                None => return Step::Panic,
+            let (rels, e) = match o {
+                Opnd::Ok(r, e) => (r, e),
+                _ => return Step::Panic,
             };
             root.replace(i, e);
             let item = model.new_entry(rels);
@@ -702,18 +784,15 @@ fn apply(root: &mut Relations, model: &mut Model, handles: &mut Handles, f: &[&s
         }
         ["epush", mode, i, way, t] => {
             let i = idx(i).unwrap_or(usize::MAX);
-            let m = match ds(t).and_then(|t| RelM::parse_canon(&t)) {
-                Some(r) => r,
-                None => return Step::Skip,
-            };
-            let pos = match model.entry_pos(i) {
-                Some(p) => p,
-                None => return Step::Skip,
+            let o = rel_operand(root, model, way, t);
+            let pos = match (&o, model.entry_pos(i)) {
+                (Opnd::Skip, _) | (_, None) => return Step::Skip,
+                (_, Some(p)) => p,
             };
             let id = model.items[pos].id;
-            let r = match build_rel(way, &m) {
-                Some(r) => r,
-                None => return Step::Panic,
+            let (m, r) = match o {
+                Opnd::Ok(mut m, r) => (m.remove(0), r),
+                _ => return Step::Panic,
             };
             match (*mode, handles.entries.iter_mut().find(|(x, _)| *x == id)) {
                 ("h", Some((_, h))) => h.push(r),
@@ -726,21 +805,18 @@ fn apply(root: &mut Relations, model: &mut Model, handles: &mut Handles, f: &[&s
         }
         ["erepl", mode, i, j, way, t] => {
             let (i, j) = (idx(i).unwrap_or(usize::MAX), idx(j).unwrap_or(usize::MAX));
-            let m = match ds(t).and_then(|t| RelM::parse_canon(&t)) {
-                Some(r) => r,
-                None => return Step::Skip,
-            };
-            let pos = match model.entry_pos(i) {
-                Some(p) => p,
-                None => return Step::Skip,
+            let o = rel_operand(root, model, way, t);
+            let pos = match (&o, model.entry_pos(i)) {
+                (Opnd::Skip, _) | (_, None) => return Step::Skip,
+                (_, Some(p)) => p,
             };
             if j >= model.alts(i).map(|a| a.len()).unwrap_or(0) {
                 return Step::Skip;
             }
             let id = model.items[pos].id;
-            let r = match build_rel(way, &m) {
-                Some(r) => r,
-                None => return Step::Panic,
+            let (m, r) = match o {
+                Opnd::Ok(mut m, r) => (m.remove(0), r),
+                _ => return Step::Panic,
             };
             match (*mode, handles.entries.iter_mut().find(|(x, _)| *x == id)) {
                 ("h", Some((_, h))) => h.replace(j, r),
@@ -1420,6 +1496,30 @@ fn op_pool() -> Vec<String> {
         format!("addp.f.0.0.{}", x("!nocheck")),
         format!("addp.h.0.0.{}", x("cross stage1")),
         format!("addp.f.1.0.{}", x("nodoc")),
+        // LIVE operands (after seeded change C11-r8m1 and audit finding D1): a handle that is still
+        // part of this field (`l`) or of another one (`o`) is copied, never moved
+        "ins.0.l.1".into(),
+        "ins.1.l.0".into(),
+        "ins.0.l.2".into(),
+        "ins.2.l.0".into(),
+        "push.l.0".into(),
+        "push.l.1".into(),
+        "repl.0.l.1".into(),
+        "repl.1.l.0".into(),
+        "repl.0.l.0".into(),
+        "repl.2.l.0".into(),
+        format!("ins.0.o.{}", x("p, q")),
+        format!("ins.1.o.{}", x(" p (>= 1) | q ,r")),
+        format!("push.o.{}", x("p | q, r")),
+        format!("repl.0.o.{}", x("p, q")),
+        format!("repl.1.o.{}", x("p  (>=1)|q\n , r")),
+        "erepl.f.0.0.l.1-0".into(),
+        "erepl.h.1.0.l.0-0".into(),
+        "erepl.f.0.1.l.0-0".into(),
+        "erepl.f.0.0.l.0-1".into(),
+        "epush.f.0.l.1-0".into(),
+        "epush.h.0.l.0-0".into(),
+        "epush.f.1.l.0-1".into(),
     ];
     v.dedup();
     v
